@@ -789,20 +789,21 @@ example (held : String → List Nat) (hist : List (Act Nat × Option Fault)) (fs
 
 /-- `auto_save_stays_registered` / `failed_auto_save_retried` on a non-trivial history: "a" is saved automatically.  The
 automatic save of a := 9 fails at the rename (operation 3 of 5): the file keeps 5, the exception is swallowed, nobody
-calls `saveParameters()`.  The callback is still registered, and the next change (a := 11) performs the five operations
+calls `saveParameters()`; then a read error of "a" is announced (the callback cannot take it: swallowed as well).  The callback
+is still registered, and the next change (a := 11) performs the five operations
 again and leaves the file that reads back 11 - obtained from the theorem, whose hypotheses all hold. -/
 example :
     let fs0 : FS Nat := fun _ => none
     let o := startUp exEnv exAuto [] (fs0 exEnv.tgt) none
-    let w := World.run exEnv ⟨o.ms, applyEvs fs0 o.evs⟩ [(.set "a" 9, some ⟨3, [], []⟩)]
+    let w := World.run exEnv ⟨o.ms, applyEvs fs0 o.evs⟩ [(.set "a" 9, some ⟨3, [], []⟩), (.seterr "a", none)]
     let s := act exEnv w.ms (w.fs exEnv.tgt) (.set "a" 11) none
     w.ms.writeDict = [] ∧ w.fs 0 = some (List.replicate 5 1) ∧ w.fs 1 = none ∧ valueOf w.ms.params "a" = some 9 ∧
     w.ms.hooks = ["a"] ∧ s.evs.length = 5 ∧ applyEvs w.fs s.evs 0 = some (List.replicate 11 1) ∧
     loadRaw exEnv.parse (applyEvs w.fs s.evs exEnv.tgt) = exportAll exEnv s.ms.params := by
   refine ⟨by decide +kernel, by decide +kernel, by decide +kernel, by decide +kernel, ?_, by decide +kernel,
     by decide +kernel, ?_⟩
-  · exact auto_save_stays_registered exEnv exAuto [] (fun _ => none) none [(.set "a" 9, some ⟨3, [], []⟩)]
-  · have h := (failed_auto_save_retried exEnv exLaws.1 exAuto [] (fun _ => none) none [(.set "a" 9, some ⟨3, [], []⟩)]
+  · exact auto_save_stays_registered exEnv exAuto [] (fun _ => none) none [(.set "a" 9, some ⟨3, [], []⟩), (.seterr "a", none)]
+  · have h := (failed_auto_save_retried exEnv exLaws.1 exAuto [] (fun _ => none) none [(.set "a" 9, some ⟨3, [], []⟩), (.seterr "a", none)]
       exAutoCodec ⟨"a", true, true, false, false, false, 5⟩ (by simp [exAuto]) rfl rfl 11 (by decide +kernel)).2
     rcases h with h | h
     · exact h
